@@ -44,6 +44,11 @@ def params(draw, tier):
                                         min_cells=2, allow_sub=True, n_int_max=12, pose=(src == "realise"),
                                         labels=(src == "realise"))))
         p["wseed"] = draw(st.integers(0, 2 ** 32 - 1))
+        if p["kind"] != "moebius" and draw(st.booleans()):
+            # many two-point interfaces: the vertex-merging path of generate_mesh (replace_short_edges) runs
+            p["n_int"] = {"mode": "per", "lo": 0, "hi": draw(st.integers(0, 2)), "seed": draw(st.integers(0, 2 ** 32 - 1))}
+        if src == "realise":
+            p["lab"]["shifts"] = True
     elif src == "tess":
         p["n"] = draw(st.integers(8, 60))
         p["seed"] = draw(st.integers(0, 2 ** 32 - 1))
